@@ -397,6 +397,13 @@ double one_normest_core(const gsl_matrix_complex *A, unsigned int t, unsigned in
     throw std::runtime_error("At least one column is needed.");
   if (t >= A->size1) //too small for the block estimator to be of any use
     return exact_1_norm(A);
+  //Every caller passes an explicitly formed matrix, whose exact norm costs less than one iteration
+  //of the estimator. The estimate on the other hand can be arbitrarily far below the norm: it is 0
+  //for a non-zero matrix whose rows sum to zero if the few sampled columns miss its support
+  //(e.g. i*s*[[1,-1],[-1,1]] embedded in a 6x6 matrix), which made matrix_exponential choose too low
+  //an order or skip the scaling. As scipy's expm does, only estimate when the matrix is large.
+  if (A->size1 < 200)
+    return exact_1_norm(A);
 
   unsigned int n = A->size1;
   unsigned int nmults = 0;
